@@ -462,9 +462,8 @@ func (t *fnTrans) lockOp(m Val, acquire bool, key string, pos token.Pos) {
 			mode = "1"
 		}
 		t.set(lm.Name, fmt.Sprintf("(store %s %s %s)", t.get(t.cur, lm.Name), self, mode))
-	} else {
-		t.set(lm.Name, fmt.Sprintf("(store %s %s 0)", t.get(t.cur, lm.Name), self))
 	}
+	// (on release the mode is cleared AFTER the invariant / guarantee obligations, which may mention holds()/holdsw())
 	st := p.Typ.Underlying().(*types.Struct)
 	lockPkg := t.eng.typesPkg(ls.Pkg)
 	guardedVars := func() []*StateVar {
@@ -600,6 +599,7 @@ func (t *fnTrans) lockOp(m Val, acquire bool, key string, pos token.Pos) {
 		}
 		t.oblige("lock", fmt.Sprintf("%s.%s.guarantee.%s", stName, ls.Field, nm), c.Src, env.boolOf(c.Expr), pos)
 	}
+	t.set(lm.Name, fmt.Sprintf("(store %s %s 0)", t.get(t.cur, lm.Name), self))
 	for name := range t.vars {
 		t.cur.m["atunlock:"+name] = t.get(t.cur, name)
 		t.cur.m["atunlock."+ls.Field+":"+name] = t.get(t.cur, name)
